@@ -183,10 +183,14 @@ def oracle(sch, txs, io):
             probs = no_trace(sch, facts, R, X)
             if probs:
                 kinds = sorted(set(p[0] for p in probs))
+                nops = len(tx_ops(t))
+                where = "" if nops <= 1 else (" (transaction %d of the history: the delete is operation(s) %s of %d in it%s)" % (
+                    k, ",".join(str(j) for j, (kk, s, i) in enumerate(tx_ops(t)) if kk == "D"), nops,
+                    "" if any(kk == "D" and sch.root(s) == R and i == X for (kk, s, i) in tx_ops(t)) else "; this entity went through a cascade"))
                 out.append(("C06:trace-" + kinds[0],
-                            "after the committed delete of %s %s (hex id) its id still occurs: %s%s" % (
+                            "after the committed delete of %s %s (hex id) its id still occurs: %s%s%s" % (
                                 R, X, "; ".join(p[1] for p in probs[:4]),
-                                " [boltz.ValidateDeleted: %s]" % vd.get((R, X), "n/a")), k))
+                                " [boltz.ValidateDeleted: %s]" % vd.get((R, X), "n/a"), where), k))
                 break
             if vd.get((R, X)) == "found":
                 if names_hex is None:
@@ -207,6 +211,16 @@ def compare(a, b):
         return "state facts differ: only impl %s ; only model %s" % (
             sorted(set(a["facts"]) - set(b["facts"]))[:6], sorted(set(b["facts"]) - set(a["facts"]))[:6])
     return None
+
+
+def block_delete_refused(sch, txs, io, bend):
+    """the block [bstart, bend) of a never-existed run ends with the transaction `D store X`; True when that transaction did
+    not commit although the entity exists (it is still there afterwards)"""
+    a = io[bend - 1]
+    if a["commit"]:
+        return False
+    ops = tx_ops(txs[bend - 1])
+    return any(k == "D" and ("E:%s:%s" % (sch.root(s), i)) in a["facts"] for (k, s, i) in ops)
 
 
 def never_compare(io, never_line):
@@ -327,7 +341,7 @@ def run(c):
     assert len(cases) == len(impl) == len(modl) == len(never), (len(cases), len(impl), len(modl), len(never))
 
     distinct = set()
-    ntx = ndel = nnever = 0
+    ntx = ndel = nnever = nnever_skipped = 0
     disagreements = []
     for idx, (case, i, m, nv) in enumerate(zip(cases, impl, modl, never)):
         if not case.strip():
@@ -343,7 +357,11 @@ def run(c):
         for key, desc, k in oracle(sch, txs, io):
             c.violation(key, desc, dict(case=replay_case, impl=i, model=m, tx=k, gen=dict(gen, index=idx)))
             reported = True
-        if not reported and nv.strip() not in ("", "-"):
+        if not reported and nv.strip() not in ("", "-") and block_delete_refused(sch, txs, io, int(nv.split(" ", 2)[1])):
+            # the delete that ends the block create..delete was refused (e.g. the entity had been made to reference
+            # itself through a restrict constraint): the id was not deleted, "as if it had never existed" does not apply
+            nnever_skipped += 1
+        elif not reported and nv.strip() not in ("", "-"):
             nnever += 1
             d = never_compare(io, nv)
             if d:
@@ -381,6 +399,7 @@ def run(c):
     c.cov["transactions"] = ntx
     c.cov["committed_deletes_checked"] = ndel
     c.cov["never_existed_comparisons"] = nnever
+    c.cov["never_existed_skipped_delete_refused"] = nnever_skipped
     c.cov["rc_histories"] = len(rcc)
     c.cov["rc_committed_deletes_checked"] = nrcdel
     c.cov["distinct_nontrivial"] = len(distinct)
@@ -390,16 +409,24 @@ def run(c):
         "index chain, fk constraints restrict + cascade, system constraint, plain and extended child stores with their own unique index, "
         "link collection): populate with valid references, random transactions of the shared generator (collisions, failures, vetoes), churn "
         "on one entity X (patches, re-parenting of its referrers, link churn), delete X in a system context, re-create X, 1-4 more "
-        "transactions on X (update, links from both sides, referrers pointing at it, delete, create). After EVERY transaction the bolt "
+        "transactions on X (update, links from both sides, referrers pointing at it, delete, create). BURST histories (n/2 more in the quick, n/4 in the thorough tier; wirings idx / "
+        "fkc / casc / cl, generated against the live database): the delete of X sits inside a multi-operation transaction that first "
+        "creates / re-points / fully updates / deletes 3-6 referrers of X whose ids are neighbours in the entities bucket (optionally a second "
+        "cascade level below one of them, link churn on a referrer or on X, 3-6 neighbouring set values, a second parent with interleaved "
+        "referrers deleted by the same transaction), or the referrers are committed (all / a prefix / every other one) and the delete "
+        "transaction starts with another write to their store; restrict edges release the referrers in that transaction first; link-only "
+        "bursts link X to 3-5 neighbours written by the same transaction. After EVERY transaction the bolt "
         "file is traversed; op results and ALL facts are compared with the extracted machine; for every entity deleted by a committed "
         "transaction (DeleteById results and Deleted events, so cascaded deletes too) the no-trace oracle is evaluated on the "
         "implementation's facts and boltz.ValidateDeleted is called; a third of the histories use a reserved id and are executed a second "
         "time without the block create..delete: the suffix must be observed identically. Plus a stream over ref-counted link collections "
-        "(oracle only). Non-trivial: every history has at least 5 transactions; distinct by case text.")
+        "(oracle only; 40 % of its histories contain a burst: hub linked to 3-5 neighbours and deleted in the same transaction). Non-trivial: every history has at least 5 transactions; distinct by case text.")
     ks = sorted(set((0, len(cases) // 2, max(0, len(cases) - 1))))
     c.cov["samples"] = [dict(case=cases[k][:1500], impl=impl[k][:1500], model=modl[k][:1500]) for k in ks if k < len(cases)]
     try:
         c.cov["input_distribution"] = json.load(open(os.path.join(c.work, "stats.json")))
+        for key in ("burst_histories", "burst_delete_tx_committed", "burst_deleted_entities"):
+            c.cov[key] = c.cov["input_distribution"].get(key, 0)
     except Exception:
         pass
     if disagreements and not c.violations:
